@@ -3,5 +3,7 @@ NEXT ONext
 CONSTANTS
   MaxSegs = 0
   DevTruncateInPlace = FALSE
+  DevLoopLexical = FALSE
+  LoopInstance = FALSE
 CONSTRAINT Report
 CHECK_DEADLOCK FALSE
